@@ -100,6 +100,7 @@ func CheckC12(r *Run) int {
 		{"stmt-forms", "var a, b int = 1, 2\nfunc f(p int, q []int) (int, string) {\n\treturn p - 1, \"s\"\n}\nx, y := f(a, []int{b, 3})\nswitch x {\ncase 1:\n\tprint(y)\ndefault:\n\tprint(y + \"t\")\n}\nfor i, v := range []int{1, 2} {\n\tif i < v && !(v == 2) {\n\t\tcontinue\n\t} else if i >= 1 {\n\t\tbreak\n\t} else {\n\t\tx += i\n\t}\n}\nfor j := 0; j < 2; j++ {\n\tx--\n}\ns := \"ab\"\nprint(s[1], s[0:1], len(s), x % 2)\n"},
 		{"import-group", "import (\n\tu \"u.tsh\"\n\tw \"w.tsh\"\n)\nprint(u.F(), w.G())\n"},
 		{"import-single", "import u \"u.tsh\"\nprint(u.F())\n"},
+		{"multi-line-literals", "usage := `line one\n  line two  \n\nend`\nhelp := `a\nb`\nprint(usage, len(usage))\nprint(help, len(help), usage == help)\n"},
 		{"minus-forms", "a := 5\nb := a - 1\nc := -2\nd := a - -3\nprint(b, c, d, a -1)\n"},
 	}
 	for _, s := range append(RepoSeeds(), extra...) {
@@ -270,7 +271,7 @@ func CheckC12(r *Run) int {
 			}
 		}
 	}})
-	r.Absorb("H_C12_relayout", st, fmt.Sprintf("every gap of %d hand-written statement-form seeds (%d gaps, one gap at a time) plus %d sampled gap positions over %d seed programs with a window of %d consecutive gaps re-laid out from menus (inline: %q, line break: %q, leading/trailing variants), LF or CRLF", 4, nPri, nSampled, len(seeds), window, inlineMenu, breakMenu))
+	r.Absorb("H_C12_relayout", st, fmt.Sprintf("every gap of %d hand-written statement-form seeds incl. multi-line string literals (%d gaps, one gap at a time) plus %d sampled gap positions over %d seed programs with a window of %d consecutive gaps re-laid out from menus (inline: %q, line break: %q, leading/trailing variants), LF or CRLF", 5, nPri, nSampled, len(seeds), window, inlineMenu, breakMenu))
 	// classify and confirm
 	seen := map[string]bool{}
 	validated := 0
@@ -365,5 +366,5 @@ func withAux(main string) map[string]string {
 }
 
 func isExtraSeed(n string) bool {
-	return n == "stmt-forms" || n == "minus-forms" || n == "import-group" || n == "import-single"
+	return n == "stmt-forms" || n == "minus-forms" || n == "multi-line-literals" || n == "import-group" || n == "import-single"
 }
